@@ -94,7 +94,7 @@ PROPS = {
             "directories and path resolution are not modelled (flat path map)",
         ],
         "assumptions": [
-            "distinct file writes carry distinct modification times (fine clock) and the clock starts above 0, as the property states",
+            "distinct file writes carry distinct modification times (fine clock), as the property states",
             "theorems are about coq/Model/{World,Work,Build,Ops,Inv}.v; tied to src/{cache,blob,work,build,current}.rs by the history and crash suites (R-hist, cache column) ",
         ],
     },
@@ -255,7 +255,7 @@ PROPS = {
                 + " Suite real_hist: 12 quick / 150 thorough histories (writes, tampered and deleted targets, chmod, builds and cleans with and without goal, deleted ruler directory / cache directory / table, a failing rule in a third of them) run with the REAL ruler binary (built from /repo without cfg flags: main.rs argument handling, RealSystem, /bin/sh commands, OS threads under the OS scheduler) in a scratch directory on the real file system; after every operation workspace files with permission bits, the cache listing, the number of history files, the status lines (as a multiset) and success/failure are compared with the model; cache names are recomputed from contents.",
         "trusted_base": COMMON_TB + ["hash collision freedom idealised (free symbolic hashes; generic theorems take injectivity hypotheses)", "directories not modelled"],
         "assumptions": [
-            "commands deterministic in every build of the history (det_history: write only own targets, read only declared sources) — needed for the whole history, shown by a refutation; fine clock starting above 0",
+            "commands deterministic in every build of the history (det_history: write only own targets, read only declared sources) — needed for the whole history, shown by a refutation; fine clock",
             "theorems about coq/Model/Build.v against coq/Model/Ideal.v under the serial schedule; other schedules by C06; tied to the code by the history suite (verdict and workspace columns)",
         ],
     },
@@ -298,9 +298,21 @@ _R3 = {
     "C09": " Round 3: suite dropped — build, clean, the rules file rewritten WITHOUT the rule that produced a path another rule still reads (the path becomes a plain source that the table and the cache still remember), build: ruler must report the missing source and create nothing.",
     "C10": " Round 3: before the clean, an mv dance: every in-scope target moved aside, the leaves changed, build, the leaves restored, the old copies moved back with their old modification times (the table now remembers NEWER states of other contents for those paths).",
     "C17": " Round 3: a third of the scenarios have a neighbour rule that fails in the same build, so the contradicted rule's history must have been written by a build that failed as a whole.",
-    "C07": " Round 4: suite epoch — the clock starts at 0 and the first thing that happens is the user writing a TARGET path by hand with a value the rules later produce; that file carries modification time 0 (the time of FileState::empty()), is displaced into the cache by the first build and comes back through the recoveries of swap histories; 80 quick / 2000 thorough, both clocks, all monitors, paired runs.",
+    "C07": " Round 4: suite epoch — the clock starts at 0 and the first thing that happens is the user writing a TARGET path by hand with a value the rules later produce; that file carries modification time 0 (the time of FileState::empty()), is displaced into the cache by the first build and comes back through the recoveries of swap histories (under the fine clock the first write is stamped 1, so there the suite merely starts from clock 0); a quarter of the histories are directed (coarse clock): a copy dated 0 is kept aside, moved into the target path later, displaced into the cache, recovered and displaced again — with a single rule, so that no two files share a time and every monitor stays on; 80 quick / 2000 thorough, all monitors, paired runs.",
     "C18": " Round 4: suite epoch (see C07) with paired runs.",
     "C02": " Round 3: the monitor separates 'an output ruler itself lost' (it was in the cache when the build started, nobody else's target took it, yet the command ran) from the known finding; mixed has mv patterns.",
 }
+_R4 = {
+    "C02": " Round 4: mixed has the pattern stash a target / change the leaves / build / put the leaves back / move the copy back / build twice (nothing may run).",
+    "C03": " Round 4: prepared state built-tampered-cleaned-edited (a target that another rule reads is overwritten by hand, everything cleaned, a leaf beside it edited) and the corpus case corpus/sched/intermediate-scribbled-then-cleaned.case.",
+    "C10": " Round 4: swap histories (3/4 under the coarse clock) end with build, clean, build; the C10 monitor applies to every history in which a clean directly follows a successful build of the same goal and a build follows.",
+    "C13": " Round 4: suite c13_neighbours — 2-4 rules reading the same source, one of them failing because an undeclared file is missing, the others succeeding, optionally everything built before; repair (optionally after a clean), build, build: every target holds its own output, nobody contradicts a record, the repeated build runs nothing; 60 quick / 800 thorough.",
+    "C14": " Round 4: monitor — a Contradiction error names an earlier and a later line of its section, in file order.",
+    "C18": " Round 4: in a third of the two-target swap histories the rule reads an undeclared, always empty file that is removed and put back between builds, so that its command fails after some targets were already restored.",
+    "C19": " Round 4: after every invocation one cached entry is requested while a one-shot race renames it away right after the server's is_file answered true (what a build restoring that entry does): the answer must be the exact bytes or 404.",
+    "C20": " Round 4: monitors on every explored schedule — a rule whose command ran and whose targets are in place has its status lines; the number of reported errors equals the number of failing rules and missing leaves.",
+}
 for _k, _v in _R3.items():
+    PROPS[_k]["rule"] += _v
+for _k, _v in _R4.items():
     PROPS[_k]["rule"] += _v
